@@ -446,37 +446,31 @@ class Show:
         return show_steps
 
     def _replace_token_keys(self, show_steps, show_tokens):
+        # maps the original path of a key (as recorded in token_keys) to the name the key has now
         keys_replaced = dict()
-        # pylint: disable-msg=too-many-nested-blocks
         for token, replacement in show_tokens.items():
             if token in self.token_keys:
                 key_name = '({})'.format(token)
                 for token_path in self.token_keys[token]:
                     target = show_steps
-                    token_str = ""
-                    for x in token_path[:-1]:
-                        if token_str in keys_replaced:
-                            x = keys_replaced[token_str + str(x) + "-"]
-                        token_str += str(x) + "-"
+                    for depth, x in enumerate(token_path[:-1]):
+                        # a key on the way may have been renamed by a token which was replaced before
+                        target = target[keys_replaced.get(tuple(token_path[:depth + 1]), x)]
 
-                        target = target[x]
-                    use_string_replace = bool(token_path[-1] != "(" + token + ")")
+                    # the key itself may contain more than one token and may have been renamed before as well
+                    final_key = keys_replaced.get(tuple(token_path), token_path[-1])
 
-                    final_key = token_path[-1]
-                    # check if key has been replaced before
-                    final_key = keys_replaced.get(final_key, final_key)
-
-                    if use_string_replace:
-                        replaced_key = final_key.replace("(" + token + ")", replacement)
-                    else:
+                    if final_key == key_name:
                         replaced_key = replacement
+                    else:
+                        replaced_key = final_key.replace(key_name, replacement)
 
                     if final_key in target:
                         target[replaced_key] = target.pop(final_key)
                     else:
                         raise KeyError("Could not find token {} ({}) in {}".format(final_key, key_name, target))
 
-                    keys_replaced[token_str] = replaced_key
+                    keys_replaced[tuple(token_path)] = replaced_key
         return show_steps
 
 
